@@ -1,7 +1,18 @@
 reg("C11", "matrix/vector classes vs linear algebra",
-    parts=[dict(harness="c11_matrix", cases=dict(quick=3000, thorough=120000), timeout_case=5)],
-    rule="case = (operation group, storage in {rect,sqgen,sym,sparse-cs,sparse-eigen}, shape from {1,2,3,5,8,17}^2, "
+    parts=[dict(harness="c11_matrix", cases=dict(quick=20000, thorough=400000), timeout_case=5),
+           # TSan flavour (clang + libomp + Archer): same products under setMultiThread(1..16); few workers so that
+           # every process really gets its OpenMP team
+           dict(harness="c11_threads", flavour="tsan", cases=dict(quick=24, thorough=160), workers=2, chunk=4,
+                timeout_case=120)],
+    rule="part 1: case = (operation group, storage in {rect,sqgen,sym,sparse-cs,sparse-eigen}, shape from {1,2,3,5,8,17}^2, "
          "content in {generic, exact zeros, small integers, wide dynamic range}) drawn from the case PRNG; every result "
-         "is compared with a long-double reference; distinct = distinct (operation, storage, shape, content) signatures "
-         "with at least one non-skipped oracle evaluation",
-    require=dict(distinct=50))
+         "is compared with a long-double reference (harness/common/ref_linalg.hpp). part 2 (ThreadSanitizer build): "
+         "dense/sparse products, congruence, inversion, Cholesky solve of sizes 70-260 recomputed under "
+         "setMultiThread(t), t in {1,2,3,4,8,16} (thorough: 1..16), compared with t=1 and with the reference, with "
+         "TSan+Archer watching. distinct = distinct (operation, storage, shape, content) signatures with at least one "
+         "non-skipped oracle evaluation",
+    require=dict(distinct=50, oracles=dict(quick={"thread-independence": 400, "prodMatMatInPlace": 500, "invert": 100,
+                                                  "chol-solve": 100, "eigenvalues": 100, "VectorNumT::sum": 500}),
+                 probes=["h.team=16", "h.team=2"]),
+    assumptions=["TSan only sees synchronisation it intercepts: libomp is made visible through Archer (OMP_TOOL_LIBRARIES)",
+                 "the schedule space is what Eigen/libomp produce for thread counts 1..16; TSan observes, it does not permute"])
